@@ -55,9 +55,10 @@ func (c *caseCtx) partFetch(spec caseSpec, hostile bool) {
 	c.must(clone, "config", "lfs.transfer.batchsize", fmt.Sprint(batch))
 	c.srv.ActionHeaders = true
 	mode := fetchFaultModes[r.Intn(len(fetchFaultModes))]
+	authMode := c.offerAuthorization(clone)
 	fs := &faultScript{mode: mode, c: c}
 	c.srv.SetHook(fs.hook)
-	c.class = fmt.Sprintf("%s/batch%d/fault-%s", c.part, batch, mode)
+	c.class = fmt.Sprintf("%s/batch%d/fault-%s/%s", c.part, batch, mode, authMode)
 	c.notef("history ops: %d, branches %q, batchsize %d, fault script %s", len(g.Log), g.Branches, batch, mode)
 	down := func() *expect { return &expect{op: "download", refs: c.currentRefs(clone)} }
 	nsteps := 3 + r.Intn(3)
